@@ -1,6 +1,6 @@
 """C15 — DNS client (DESIGN §4 C15)."""
 from tbxlint.facts import extract, AnalysisBroken, MODULES
-from tbxlint import harden, tmon, locks, q, exc, rd, reent
+from tbxlint import ival, harden, tmon, locks, q, exc, rd, reent
 
 DNS = 'tbox::network::DnsRequest'
 DES = 'tbox::util::Deserializer'
@@ -327,6 +327,58 @@ def r6(ctx, prog):
         raise AnalysisBroken('datagram path call graph too small (%d functions)' % eng.functions)
 
 
+def r10(ctx, prog):
+    ctx.rule('C15.R10', 'A9b+A6 the datagram handed to the parser is what was received into the buffer, and the result reported belongs to this datagram alone: the length passed to the '
+             'receive callback is bounded by the receive buffer (no MSG_TRUNC/MSG_PEEK length without a clamp), and the Result given to the user is an object of this activation '
+             '(or a member cleared on every entry)', floor=2)
+    U = 'tbox::network::UdpSocket'
+    f = prog.fn1(U + '::onSocketEvent')
+    rc = [c for c in f.calls() if c.get('fn') in ('recvFrom', 'recvfrom', 'recv') and len(c.get('args', ())) >= 3]
+    inv = q.invokes(f, 'recv_cb_')
+    if not rc or not inv:
+        raise AnalysisBroken('UdpSocket::onSocketEvent: receive call / recv_cb_ invocation not found')
+    r0 = rc[0]
+    bufsz = ival.interval(f, r0['args'][1], q.pt(f, r0))
+    flags = (f.s(f.strip_casts(r0['args'][2])) or {}).get('cv')
+    for i in inv:
+        ln = i['args'][1] if len(i.get('args', ())) > 1 else None
+        ok = False
+        why = ''
+        if flags is not None and (flags & (0x20 | 0x02)) == 0:
+            # plain receive: the return value never exceeds the length asked for
+            lv = f.s(f.strip_casts(ln)) if ln is not None else None
+            from tbxlint import rd as _rd
+            src_ok = lv is not None and lv['k'] == 'DeclRefExpr' and any(d['rhs'] is not None and r0['i'] in set(f.walk(d['rhs'])) for d in _rd.local_defs(f, lv['d']))
+            ok, why = src_ok, 'length is the return value of a plain receive into the buffer (flags %d)' % flags
+        if not ok and ln is not None and bufsz is not None:
+            lv = f.s(f.strip_casts(ln))
+            if lv is not None and lv['k'] == 'DeclRefExpr':
+                gb = ival.guard_bounds(f, lv['d'], q.pt(f, i))
+                if gb and gb[1] is not None and gb[1] <= bufsz[1]:
+                    ok, why = True, 'length clamped to <= %d by a dominating guard' % bufsz[1]
+        ctx.ob('C15.R10', '%s|length-within-buffer' % f.name, ok, why if ok else
+               'the length handed to the receive callback is the return value of a receive with flags %s (MSG_TRUNC/MSG_PEEK make it the size of the whole datagram) and is not '
+               'clamped to the %s-byte buffer: the parser reads past the stack buffer' % (hex(flags) if flags is not None else '?', bufsz[1] if bufsz else '?'), where=f.loc(i['i']))
+    g = prog.fn1(DNS + '::onUdpRecv')
+    for i in [x for x in q.invokes(g) if 'cb' in g.path(x['obj'])]:
+        a = i['args'][0] if i.get('args') else None
+        ap = q.canon_path(g, g.path(a)) if a is not None else '?'
+        root = ap.split('.')[0]
+        is_local = any(d.get('n') == root and not (d.get('t') or '').rstrip().endswith('&') and not d.get('static') for st in g.stmts if st and st['k'] == 'DeclStmt' for d in st['decls'])
+        ok = is_local
+        why = 'the Result reported is a local of this call'
+        if not ok:
+            # a member: every vector it carries must be cleared on every path before anything is appended to it
+            pushes = [c for c in g.calls() if c.get('fn') in ('push_back', 'emplace_back') and q.canon_path(g, g.path(c.get('obj'))).startswith(ap + '.')]
+            clears = [c for c in g.calls() if c.get('fn') == 'clear' and q.canon_path(g, g.path(c.get('obj'))).startswith(ap + '.')] + \
+                     [a_ for a_, rhs in q.assigns(g, root.split('.')[-1])]
+            ok = bool(clears) and all(not g.cfg.exists_path(g.cfg.entry_point(), q.pt(g, p_), avoid=q.pts(g, clears)) for p_ in pushes)
+            why = 'member scratch cleared on every path before it is filled'
+        ctx.ob('C15.R10', '%s|fresh-result' % g.name, ok, why if ok else
+               'the Result handed to the lookup callback is %s, which outlives this datagram and is not cleared on entry: records decoded from an earlier (dropped) datagram '
+               'are reported as answers of this one' % ap, where=g.loc(i['i']))
+
+
 def run(ctx):
     prog = extract('ALL' if ctx.tier == 'thorough' else SCOPE)
     ctx.guard(r1, ctx, prog)
@@ -337,6 +389,7 @@ def run(ctx):
     ctx.guard(r6, ctx, prog)
     ctx.guard(tmon.run, ctx, prog, 'C15.R7')
     ctx.guard(tmon.run_users, ctx, prog, 'C15.R9', DNS)
+    ctx.guard(r10, ctx, prog)
     ctx.guard(harden.run, ctx, prog, 'C15.R8', [prog.fn1(DNS + '::onUdpRecv')],
               lambda g: g.file.startswith(MODULES + '/network/') or g.file.startswith(MODULES + '/util/'), 'DNS datagram path')
     return prog
